@@ -1,0 +1,20 @@
+//go:build verif
+
+// Machine-checked contracts for package appmanifest (comment-only; see /verif/DESIGN.md).
+
+package appmanifest
+
+//@ func VerifyTimestamp
+//@   property C10
+//@   ghost ok bool = false
+//@   before call pkcs9.Verify(t, d, _): assert @token_checked_against_this_signature_value t == timestamp && sameslice(d, encryptedDigest)
+//@   before call pkcs9.VerifyMicrosoftToken(t, d): assert @legacy_token_checked_against_this_signature_value t == timestamp && sameslice(d, encryptedDigest)
+//@   on call pkcs9.Verify(_, _, _) ret (cs, e): ok = (e == nil)
+//@   on call pkcs9.VerifyMicrosoftToken(_, _) ret (cs, e): ok = (e == nil)
+//@   ensures @countersignature_only_after_verification ret1 == nil ==> ok
+//@
+//@ func (*SignedManifest).AddTimestamp
+//@   property C10
+//@   ghost verified bool = false
+//@   on call VerifyTimestamp(t, d, _) ret (cs, e): verified = (e == nil && t == token && sameslice(d, atcall(m.EncryptedDigest)))
+//@   ensures @timestamp_attached_only_if_it_covers_this_signature ret0 == nil ==> verified
